@@ -8,20 +8,6 @@ import (
 	"golang.org/x/tools/go/ssa"
 )
 
-// placeholders for the fork-join idiom (conc.go fills them in)
-type task struct {
-	fn   Value
-	args []Value
-	cc   *ssa.CallCommon
-	act  int
-}
-
-type chanObj struct {
-	buf    []Value
-	cap    int
-	closed bool
-}
-
 // ---------- harness vocabulary ----------
 
 func (e *Engine) tagOf(v Value) string {
@@ -296,6 +282,16 @@ func (e *Engine) harnessCall(st *State, fn *ssa.Function, args []Value) (Value, 
 			}
 			e.S.EndModel()
 		}
+		return nil, true
+	case "verifChanHandler":
+		// verifChanHandler(ch, fn): a send to ch is handed to fn synchronously (the harness plays the goroutine that serves ch)
+		cv, ok := args[0].(ChanVal)
+		if !ok {
+			unsupported("verifChanHandler on %T", args[0])
+		}
+		co := *st.chans[cv.Obj]
+		co.handler = args[1]
+		st.chans[cv.Obj] = &co
 		return nil, true
 	case "verifItoa":
 		if t, ok := args[0].(*Term); ok && t.IsConst() {
